@@ -1,0 +1,21 @@
+//go:build verif
+
+// Contracts for package zap, read by /verif/govc (contract-based deductive
+// verification). This file contains only comments and is compiled only under
+// the build tag "verif".
+
+package zap
+
+// ---------------------------------------------------------------------------
+// global.go
+
+//@ callback zap.loggerWriter.logFunc
+//@   modifies $user
+
+//@ func (*zap.loggerWriter).Write
+//@   props C13
+//@   flags nopanic
+//@   requires l != nil && l.logFunc != nil
+//@   track L = field zap.loggerWriter.logFunc
+//@   ensures #L == 1
+//@   ensures result.1 == nil ==> result.0 == len(p)
